@@ -10,6 +10,7 @@ import (
 	"sort"
 	"strconv"
 	"strings"
+	"sync"
 	"time"
 )
 
@@ -46,6 +47,8 @@ type Plan struct {
 	EvalEnv     map[string]string
 	Cases       func(emit func(Case)) // case generator (deterministic given Seed)
 	Isolated    bool                  // run cases in worker processes (fatal crashes possible)
+	ReproTries  int                   // how often a mismatching case is re-executed to reproduce it (schedule-dependent events)
+	Parallel    int                   // non-isolated cases: this many at a time (executors that spawn their own processes)
 	CaseTimeout time.Duration
 	Rule        string // evidence: how cases are generated and what non-trivial means
 	NonTrivial  func(r Rec) bool
@@ -376,9 +379,7 @@ func Run(p *Plan) int {
 				return 2
 			}
 		} else {
-			for _, c := range scases {
-				srecs = append(srecs, ExecCase(c)...)
-			}
+			srecs = execAll(scases, p.Parallel)
 		}
 		for _, r := range srecs {
 			r["stage"] = si
@@ -458,13 +459,10 @@ func Run(p *Plan) int {
 				rcases = append(rcases, c)
 			}
 		}
-		var again []Rec
-		if p.Isolated {
-			again, _ = RunIsolated(rcases, p.CaseTimeout)
-		} else {
-			for _, c := range rcases {
-				again = append(again, ExecCase(c)...)
-			}
+		repro := map[string]bool{}
+		tries := p.ReproTries
+		if tries < 1 {
+			tries = 1
 		}
 		stageOf := map[string]int{}
 		for _, m := range unknown {
@@ -473,32 +471,54 @@ func Run(p *Plan) int {
 				stageOf[caseKey(c)] = si
 			}
 		}
-		var mm2 []Mismatch
-		for si, st := range stages {
-			var part []Rec
-			for _, r := range again {
-				c, _ := r["case"].(Case)
-				if stageOf[caseKey(c)] == si {
-					part = append(part, r)
+		for try := 0; try < tries && len(rcases) > 0; try++ {
+			var again []Rec
+			if p.Isolated {
+				again, _ = RunIsolated(rcases, p.CaseTimeout)
+			} else {
+				again = execAll(rcases, p.Parallel)
+			}
+			var mm2 []Mismatch
+			for si, st := range stages {
+				var part []Rec
+				for _, r := range again {
+					c, _ := r["case"].(Case)
+					if stageOf[caseKey(c)] == si {
+						part = append(part, r)
+					}
+				}
+				x, _, err := EvalRecords(st.EvalMod, st.EvalEnv, part)
+				if err != nil {
+					logf("INCONCLUSIVE: re-evaluation failed: %v", err)
+					return 2
+				}
+				mm2 = append(mm2, x...)
+			}
+			if p.Behaviour != nil {
+				bm, _, err := p.Behaviour(p, again)
+				if err == nil {
+					mm2 = append(mm2, bm...)
 				}
 			}
-			x, _, err := EvalRecords(st.EvalMod, st.EvalEnv, part)
-			if err != nil {
-				logf("INCONCLUSIVE: re-evaluation failed: %v", err)
-				return 2
+			for _, x := range mm2 {
+				c, _ := x.Rec["case"].(Case)
+				repro[caseKey(c)+"|"+x.Class] = true
 			}
-			mm2 = append(mm2, x...)
-		}
-		if p.Behaviour != nil {
-			bm, _, err := p.Behaviour(p, again)
-			if err == nil {
-				mm2 = append(mm2, bm...)
+			// schedule-dependent events (ReproTries > 1): try the cases not yet reproduced again
+			var left []Case
+			for _, c := range rcases {
+				done := false
+				for _, m := range unknown {
+					mc, _ := m.Rec["case"].(Case)
+					if mc != nil && caseKey(mc) == caseKey(c) && repro[caseKey(c)+"|"+m.Class] {
+						done = true
+					}
+				}
+				if !done {
+					left = append(left, c)
+				}
 			}
-		}
-		repro := map[string]bool{}
-		for _, x := range mm2 {
-			c, _ := x.Rec["case"].(Case)
-			repro[caseKey(c)+"|"+x.Class] = true
+			rcases = left
 		}
 		perSig := map[string]int{}
 		for _, m := range unknown {
@@ -604,6 +624,35 @@ func sanitize(s string) string {
 
 // ExecCase runs one case in-process, recovering panics of the executor itself
 // (executors recover panics of the library per call and record them).
+// execAll runs the cases in order, n at a time, and keeps the order of the records.
+func execAll(cases []Case, n int) []Rec {
+	if n <= 1 {
+		var out []Rec
+		for _, c := range cases {
+			out = append(out, ExecCase(c)...)
+		}
+		return out
+	}
+	res := make([][]Rec, len(cases))
+	sem := make(chan struct{}, n)
+	var wg sync.WaitGroup
+	for i := range cases {
+		wg.Add(1)
+		sem <- struct{}{}
+		go func(i int) {
+			defer wg.Done()
+			defer func() { <-sem }()
+			res[i] = ExecCase(cases[i])
+		}(i)
+	}
+	wg.Wait()
+	var out []Rec
+	for _, r := range res {
+		out = append(out, r...)
+	}
+	return out
+}
+
 func ExecCase(c Case) (out []Rec) {
 	kind, _ := c["kind"].(string)
 	ex := Executors[kind]
